@@ -44,6 +44,7 @@ import (
 	"verifharness/evid"
 	"verifharness/gen"
 	"verifharness/gen/abigen"
+	"verifharness/gen/abigen/abilib"
 	"verifharness/ref/abiref"
 )
 
@@ -100,8 +101,16 @@ func prepare(c *Case) *prepared {
 	if len(prepCache) > 256 {
 		prepCache = map[string]*prepared{}
 	}
-	p := &prepared{key: key, stability: true}
+	p := newPrepared(c.Entry, c.Name, c.Decl, c.Anonymous)
+	p.key = key
 	prepCache[key] = p
+	return p
+}
+
+// newPrepared builds fresh library objects (nothing shared with any earlier definition) and validates them.
+func newPrepared(entry, entryName, decl string, anonymous bool) *prepared {
+	c := &Case{Entry: entry, Name: entryName, Decl: decl, Anonymous: anonymous}
+	p := &prepared{stability: true}
 	ty, err := abiref.ParseDecl(c.Decl)
 	if err != nil {
 		p.err = err
@@ -176,6 +185,7 @@ type result struct {
 	err   string // non-empty when no tree was returned
 	alloc uint64
 	pv    *evid.Violation
+	own   *abilib.Owned // the caller-owned buffer the data was decoded from
 }
 
 func hexTopics(ts []string) ([]ethtypes.HexBytes0xPrefix, error) {
@@ -191,16 +201,20 @@ func hexTopics(ts []string) ([]ethtypes.HexBytes0xPrefix, error) {
 }
 
 func (p *prepared) decode(c *Case, data []byte, topics []ethtypes.HexBytes0xPrefix) (r result) {
-	in := append([]byte{}, data...)
+	// the input is handed over inside a larger caller-owned buffer (F2): the call must not write to it
+	own := abilib.NewOwned(data)
+	in := own.Bytes()
+	r.own = own
 	var cv *abi.ComponentValue
 	var err error
+	var tc []ethtypes.HexBytes0xPrefix
 	switch c.Entry {
 	case "data":
 		r.alloc, r.pv = measured(func() { cv, err = p.pa.DecodeABIData(in, 0) })
 	case "call":
 		r.alloc, r.pv = measured(func() { cv, err = p.entry.DecodeCallData(in) })
 	case "event":
-		tc := make([]ethtypes.HexBytes0xPrefix, len(topics))
+		tc = make([]ethtypes.HexBytes0xPrefix, len(topics))
 		for i := range topics {
 			tc[i] = append(ethtypes.HexBytes0xPrefix{}, topics[i]...)
 		}
@@ -214,6 +228,17 @@ func (p *prepared) decode(c *Case, data []byte, topics []ethtypes.HexBytes0xPref
 	}
 	if r.pv != nil {
 		r.pv.Detail = c.Entry + ": " + r.pv.Detail
+		return r
+	}
+	written := !own.Unchanged()
+	for i := range tc {
+		if !bytes.Equal(tc[i], topics[i]) {
+			written = true
+		}
+	}
+	if written {
+		v := evid.V("input-not-written", "%s of %s: the decoder wrote to the caller's input (data buffer, the memory around it, or a topic); input %s", c.Entry, c.Decl, short(data))
+		r.pv = &v
 		return r
 	}
 	if err != nil {
@@ -485,6 +510,17 @@ func judge(c Case) (vs []evid.Violation) {
 	}
 	if res.cv != nil {
 		last.tree = true
+		// F2: the tree is the caller's now and the buffer is the caller's again: overwrite the buffer, the tree
+		// (as the first serializer renders it) must not change. (Raw topics surfaced for indexed reference
+		// types may be views of the caller's topics by design: the topics are left alone.)
+		var before []byte
+		if pv := evid.Guard("serialises", func() { before, _ = serializers[0]().SerializeJSON(res.cv) }); pv == nil && before != nil {
+			res.own.Scribble()
+			var after []byte
+			if pv := evid.Guard("serialises", func() { after, _ = serializers[0]().SerializeJSON(res.cv) }); pv == nil && !bytes.Equal(before, after) {
+				vs = append(vs, evid.V("tree-independent-of-input-buffer", "%s of %s: the returned tree changed when the caller overwrote its input buffer after the call: was %.300s, is now %.300s; input %s", c.Entry, c.Decl, before, after, short(data)))
+			}
+		}
 		vs = append(vs, judgeTree(p, &c, res.cv, data)...)
 	}
 
@@ -776,9 +812,11 @@ func isRisky(c *Case) bool {
 	return err == nil && new(big.Int).SetBytes(w).BitLen() > 20
 }
 
-func declare(path string, c *Case) {
+func declare(path string, c *Case) { declareKind(path, "bytes", c) }
+
+func declareKind(path, kind string, c interface{}) {
 	raw, _ := json.Marshal(c)
-	b, _ := json.Marshal(evid.ReplayFile{Property: "C11", Kind: "bytes", Case: raw,
+	b, _ := json.Marshal(evid.ReplayFile{Property: "C11", Kind: kind, Case: raw,
 		Note: "the worker process died (fatal out-of-memory under the address-space limit, or another runtime fatal error) while judging this case"})
 	_ = os.WriteFile(path, b, 0o644)
 }
@@ -1000,11 +1038,42 @@ func TestCheck(t *testing.T) {
 			}
 		})
 	}
+
+	// sequence kinds (no per-call memory measurement here; a fatal runtime error is attributed through the declared-case file)
+	kShared := evid.NewKind(rec, "shared", judgeShared)
+	kRet := evid.NewKind(rec, "retention", judgeRetention)
+	rec.Assume("retention: live heap = runtime.MemStats.HeapAlloc after two forced collections; judged relatively: growth over N dropped decodes <= 16 x (measured footprint of one held definition + tree) + 512 KiB")
+	rec.Rapid(t, "shared", rec.N(40, 150), func(rt *rapid.T) {
+		c, nt, cl := genSharedCase(rt)
+		declareKind(r.cur, "shared", &c)
+		kShared.Check(rt, c, nt, cl...)
+		_ = os.Remove(r.cur)
+	})
+	rec.Rapid(t, "retention", rec.N(8, 40), func(rt *rapid.T) {
+		c, nt, cl := genRetentionCase(rt)
+		kRet.CheckLazy(rt, c, func() (bool, []string) {
+			if lastRetention.unit > 0 {
+				cl = append(cl, fmt.Sprintf("retention:unit<=%dKiB", 1<<bitsLen(lastRetention.unit>>10)))
+			}
+			return nt, cl
+		})
+	})
+}
+
+func bitsLen(x int64) uint {
+	n := uint(0)
+	for x > 0 {
+		x >>= 1
+		n++
+	}
+	return n
 }
 
 func TestReplay(t *testing.T) {
 	rec := evid.Start("C11", rule)
 	k := evid.NewKind(rec, "bytes", judge)
+	evid.NewKind(rec, "shared", judgeShared)
+	evid.NewKind(rec, "retention", judgeRetention)
 	setup(rec, k)
 	cur := currentFile(rec)
 	if p := os.Getenv("VERIF_REPLAY"); p != "" {
